@@ -53,9 +53,14 @@ func collectEquations(c *ctx, fn *ssa.Function) []*eqGuard {
 	var out []*eqGuard
 	accept := acceptBlocks(fn, 0, true)
 	loops := core.Loops(fn)
-	for _, g := range core.WithClosures(fn) {
+	for _, g := range unitFuncs(fn) {
 		targets := accept
 		closure := g != fn
+		if closure && g.Parent() == nil && !startedByGo(fn, g) {
+			// a private helper that is called, not spawned: its equations reach the caller through the
+			// call fact of the guard that consults it (see eqFromFact)
+			continue
+		}
 		if closure {
 			targets, _ = trueSendBlocks(g)
 			if len(targets) == 0 {
@@ -173,6 +178,53 @@ func eqFromFact(root, g *ssa.Function, f core.Fact, iff *ssa.If, side int, stren
 		if core.CallIs(call, "(*~/crypto.ECPoint).Equals") {
 			return []*eqGuard{{pos: pos, fn: g, deps: core.DepsOf(root, true, call.Call.Args[0], call.Call.Args[1]), strength: strength, iff: iff, side: side, kind: "equals", x: call.Call.Args[0], y: call.Call.Args[1]}}
 		}
+		// the equation factored into a private predicate `isEqual(…) bool`: what all its true returns
+		// compare, with the predicate's parameters read as this call's arguments
+		if h := core.Callee(call); core.PrivateHelper(h) && !call.Call.IsInvoke() && h.Pkg == pkgOf(root) {
+			facts, ok := core.ReturnFacts(h, 0, true)
+			if !ok {
+				return nil
+			}
+			var out []*eqGuard
+			for _, hf := range facts {
+				for _, e := range eqFromFact(h, h, hf, nil, 0, strength) {
+					w := core.NewDepWalker(root, true)
+					w.Translate(e.deps, call)
+					out = append(out, &eqGuard{pos: pos, fn: g, deps: w.Out, strength: strength, iff: iff, side: side, kind: e.kind, x: call, y: call})
+				}
+			}
+			return out
+		}
+	}
+	return nil
+}
+
+// startedByGo: the named function g is the body of a `go` statement of fn's unit.
+func startedByGo(fn, g *ssa.Function) bool {
+	for _, f := range unitFuncs(fn) {
+		for _, b := range f.Blocks {
+			for _, in := range b.Instrs {
+				if gg, ok := in.(*ssa.Go); ok && !gg.Call.IsInvoke() {
+					if h, isF := gg.Call.Value.(*ssa.Function); isF && h == g {
+						return true
+					}
+				}
+			}
+		}
+	}
+	return false
+}
+
+// goBody: the function a go statement starts — a closure or a named function.
+func goBody(gg *ssa.Go) *ssa.Function {
+	if gg.Call.IsInvoke() {
+		return nil
+	}
+	if mc, ok := core.Strip(gg.Call.Value).(*ssa.MakeClosure); ok {
+		return mc.Fn.(*ssa.Function)
+	}
+	if h, ok := gg.Call.Value.(*ssa.Function); ok && h.Blocks != nil {
+		return h
 	}
 	return nil
 }
@@ -222,14 +274,20 @@ func parallelJoinOK(fn, g *ssa.Function) bool {
 		for b := range l.In {
 			for _, in := range b.Instrs {
 				if gg, ok := in.(*ssa.Go); ok {
-					if mc, ok := core.Strip(gg.Call.Value).(*ssa.MakeClosure); ok {
-						cf := mc.Fn.(*ssa.Function)
+					if cf := goBody(gg); cf != nil {
 						_, ch2 := trueSendBlocks(cf)
 						if ch2 != nil && core.ChanMake(ch2) == mk {
 							if cf == g {
 								spawn = l
-								// loop index passed as argument
-								if len(gg.Call.Args) != 1 || gg.Call.Args[0] != l.Idx {
+								// loop index passed as argument (a closure takes nothing else; a named body also
+								// takes what the closure captured)
+								hasIdx := false
+								for _, a := range gg.Call.Args {
+									if a == l.Idx {
+										hasIdx = true
+									}
+								}
+								if !hasIdx || cf.Parent() != nil && len(gg.Call.Args) != 1 {
 									return false
 								}
 							}
@@ -245,8 +303,8 @@ func parallelJoinOK(fn, g *ssa.Function) bool {
 	for b := range spawn.In {
 		for _, in := range b.Instrs {
 			if gg, ok := in.(*ssa.Go); ok {
-				if mc, ok := core.Strip(gg.Call.Value).(*ssa.MakeClosure); ok {
-					_, ch2 := trueSendBlocks(mc.Fn.(*ssa.Function))
+				if cf := goBody(gg); cf != nil {
+					_, ch2 := trueSendBlocks(cf)
 					if ch2 != nil && core.ChanMake(ch2) == mk {
 						goSites++
 					}
